@@ -365,18 +365,19 @@ def x_decl(d, path):
         if b is not None:
             b = x_type(b) if b['t'] is not None else {'q': b['q']}
         return {'k': k, 'tpl': x_tpl(d['tpl']), 'v': int(bool(d['v'])), 'n': d['n'], 'b': b, 'm': mem,
-                'path': path}
+                'path': path, 'scope': [''] + list(path)}
     if k == 'typedef':
         return {'k': k, 't': x_typename(d['t']), 'n': d['n'], 'path': path}
     if k == 'func':
         return {'k': k, 'tpl': x_tpl(d['tpl']), 'r': x_ret(d['r']), 'n': d['n'], 'a': x_args(d['a']),
                 'path': path}
     if k == 'enum':
-        return {'k': k, 'n': d['n'], 'e': list(d['e']), 'path': path}
+        return {'k': k, 'n': d['n'], 'e': list(d['e']), 'path': path, 'scope': [''] + list(path)}
     if k == 'var':
         return {'k': k, 't': x_type(d['t']), 'n': d['n'], 'd': d['d'], 'path': path}
     if k == 'ns':
-        return {'k': k, 'n': d['n'], 'path': path, 'c': [x_decl(c, path + [d['n']]) for c in d['c']]}
+        return {'k': k, 'n': d['n'], 'path': path, 'scope': [''] + list(path) + [d['n']],
+                'c': [x_decl(c, path + [d['n']]) for c in d['c']]}
     raise ValueError(k)
 
 
@@ -505,7 +506,7 @@ def o_decl(d):
         else:
             ob = {'unexpected_base': repr(b)}
         r = {'k': 'class', 'tpl': o_tpl(d.template), 'v': int(bool(d.is_virtual)), 'n': d.name, 'b': ob,
-             'm': o_member_lists(d), 'path': _path(d)}
+             'm': o_member_lists(d), 'path': _path(d), 'scope': list(d.namespaces())}
         # members must point back at their class
         for lst in (d.ctors, d.methods, d.static_methods, d.properties):
             for m in lst:
@@ -518,12 +519,12 @@ def o_decl(d):
         return {'k': 'func', 'tpl': o_tpl(d.template), 'r': o_ret(d.return_type), 'n': d.name,
                 'a': o_args(d.args), 'path': _path(d)}
     if isinstance(d, ip.Enum):
-        return {'k': 'enum', 'n': d.name, 'e': [e.name for e in d.enumerators], 'path': _path(d)}
+        return {'k': 'enum', 'n': d.name, 'e': [e.name for e in d.enumerators], 'path': _path(d), 'scope': list(d.namespaces())}
     if isinstance(d, ip.Variable):
         return {'k': 'var', 't': o_type(d.ctype), 'n': d.name,
                 'd': None if d.default is None else str(d.default), 'path': _path(d)}
     if isinstance(d, ip.Namespace):
-        return {'k': 'ns', 'n': d.name, 'path': _path(d), 'c': [o_decl(c) for c in d.content]}
+        return {'k': 'ns', 'n': d.name, 'path': _path(d), 'scope': list(d.full_namespaces()), 'c': [o_decl(c) for c in d.content]}
     return {'k': 'unknown', 'repr': repr(d)}
 
 
